@@ -17,32 +17,37 @@ VARIABLES wg,        \* "none" | "open" | "suspended"
           visible,   \* components a fresh open sees (beyond r1)
           listed,    \* number of packs listed in pack-names beyond the initial one
           upload,    \* BOOLEAN: files present in upload/
-          last       \* outcome of the last call: "ok" | "refused"
-vars == <<wg, ins, visible, listed, upload, last>>
+          last,      \* outcome of the last call: "ok" | "refused"
+          ntok,      \* number of suspended packs (resume tokens) belonging to the current write group
+          fresh      \* BOOLEAN: data inserted since the write group was started / resumed (goes into a new pack)
+vars == <<wg, ins, visible, listed, upload, last, ntok, fresh>>
 
 \* _commit_write_group refuses: missing compression parents, or a NEW REVISION whose inventory / chk pages / texts
 \* are not present in this repository itself
 Needs == IF HasChk THEN {"inv", "chk", "txt"} ELSE {"inv", "txt"}
 Refused(S) == ("dangle" \in S) \/ ("rev" \in S /\ ~(Needs \subseteq (S \cup visible)))
 
-Init == wg = "none" /\ ins = {} /\ visible = {} /\ listed = 0 /\ upload = FALSE /\ last = "ok"
+Init == wg = "none" /\ ins = {} /\ visible = {} /\ listed = 0 /\ upload = FALSE /\ last = "ok" /\ ntok = 0 /\ fresh = FALSE
 Tick == TRUE
 Start == /\ wg = "none" /\ wg' = "open" /\ ins' = {} /\ upload' = TRUE /\ last' = "ok" /\ Tick
+         /\ ntok' = 0 /\ fresh' = FALSE
          /\ UNCHANGED <<visible, listed>>
 Ins(c) == /\ wg = "open" /\ c \in Components \ (ins \cup visible) /\ Cardinality(ins) < MaxIns
-          /\ ins' = ins \cup {c} /\ last' = "ok" /\ Tick /\ UNCHANGED <<wg, visible, listed, upload>>
+          /\ ins' = ins \cup {c} /\ last' = "ok" /\ Tick /\ fresh' = TRUE /\ UNCHANGED <<wg, visible, listed, upload, ntok>>
 Abort == /\ wg = "open" /\ wg' = "none" /\ ins' = {} /\ upload' = FALSE /\ last' = "ok" /\ Tick
+         /\ ntok' = 0 /\ fresh' = FALSE
          /\ UNCHANGED <<visible, listed>>
 Commit == /\ wg = "open" /\ Tick
           /\ IF Refused(ins)
-             THEN last' = "refused" /\ UNCHANGED <<wg, ins, visible, listed, upload>>     \* still open: caller aborts
-             ELSE /\ last' = "ok" /\ wg' = "none" /\ ins' = {} /\ upload' = FALSE
+             THEN last' = "refused" /\ UNCHANGED <<wg, ins, visible, listed, upload, ntok, fresh>>     \* still open: caller aborts
+             ELSE /\ last' = "ok" /\ wg' = "none" /\ ins' = {} /\ upload' = FALSE /\ ntok' = 0 /\ fresh' = FALSE
                   /\ visible' = visible \cup ins /\ listed' = listed + (IF ins = {} THEN 0 ELSE 1)
 Suspend == /\ wg = "open" /\ wg' = "suspended" /\ last' = "ok" /\ Tick
            /\ upload' = (ins # {})
+           /\ ntok' = ntok + (IF fresh THEN 1 ELSE 0) /\ fresh' = FALSE
            /\ UNCHANGED <<ins, visible, listed>>
 Resume == /\ wg = "suspended" /\ wg' = "open" /\ last' = "ok" /\ Tick /\ upload' = TRUE
-          /\ UNCHANGED <<ins, visible, listed>>
+          /\ UNCHANGED <<ins, visible, listed, ntok, fresh>>
 Next == Start \/ (\E c \in Components : Ins(c)) \/ Abort \/ Commit \/ Suspend \/ Resume
 Spec == Init /\ [][Next]_vars
 
@@ -56,5 +61,6 @@ CommittedComplete == "rev" \in visible => Needs \subseteq visible
 NoDangling == "dangle" \notin visible
 \* anti-vacuity
 WitnessRefused == last # "refused"
+WitnessTwoTokensCommitted == ~(ntok = 2 /\ wg = "open")
 WitnessResumedCommit == ~(listed = 2 /\ "sig" \in visible)
 =============================================================================
